@@ -162,12 +162,17 @@ def run(ctx):
             fail = set(plan["fail"])
             orig = admm.admm_optimize_theta
 
-            def failing(*a, **k):
+            # the injected error's type varies: an error that happens to be an IndexError / AttributeError /
+            # KeyError must surface as itself, not be re-interpreted by a front end
+            exc_types = [FloatingPointError, IndexError, AttributeError, ValueError, KeyError, ZeroDivisionError]
+            exc_type = exc_types[(min(fail) + (3 if mpflag else 0)) % len(exc_types)]
+
+            def failing(*a, _exc=exc_type, **k):
                 with counter.get_lock():
                     i = counter.value
                     counter.value += 1
                 if i in fail:
-                    raise FloatingPointError(f"injected fault in task {i}")
+                    raise _exc(f"injected fault in task {i}")
                 return orig(*a, **k)
             failing.__module__ = "fast_ticc.admm"
             failing.__qualname__ = "admm_optimize_theta"
@@ -175,13 +180,14 @@ def run(ctx):
             patches.append(tu.patched(admm, "admm_optimize_theta", failing))
             first = min(fail)
             expected_reached = (first // K) < rounds_clean
-            expect_exc = ("FloatingPointError", f"task {first}" if not mpflag else "injected fault in task")
+            expect_exc = (exc_type.__name__, f"task {first}" if not mpflag else "injected fault in task")
             model_lines.append(f"mainloop {limit} 0 {show_list(script)} {first // K} opt")
             model_meta.append(plan)
         elif plan["kind"] == "phase":
             target = {"repop": (cm, "repopulate_empty_clusters"), "stats": (cm, "update_all_cluster_statistics"),
                       "opt-phase": (gl, "optimize_markov_random_fields"), "relabel": (cla, "predict_cluster_labels")}[plan["phase"]]
             state = {"n": 0}
+            phase_exc = [ArithmeticError, IndexError, AttributeError, LookupError][(plan["round"] + len(plan["phase"])) % 4]
             orig = getattr(*target)
             first_round = 1 if plan["phase"] == "repop" else 0
 
@@ -189,11 +195,11 @@ def run(ctx):
                 rnd = state["n"] + first_round
                 state["n"] += 1
                 if rnd == plan["round"]:
-                    raise ArithmeticError(f"injected fault in phase {plan['phase']} of round {rnd}")
+                    raise phase_exc(f"injected fault in phase {plan['phase']} of round {rnd}")
                 return _o(*a, **k)
             patches.append(tu.patched(target[0], target[1], phase_fail))
             expected_reached = plan["round"] < rounds_clean
-            expect_exc = ("ArithmeticError", f"round {plan['round']}")
+            expect_exc = (phase_exc.__name__, f"round {plan['round']}")
             model_lines.append(f"mainloop {limit} 0 {show_list(script)} {plan['round']} {plan['phase'].replace('-phase', '')}")
             model_meta.append(plan)
         # run under watchdog with the collector off
